@@ -90,7 +90,11 @@ pub fn specs(thorough: bool) -> Vec<BuildSpec> {
         }
     }
     // (2c) paths that are related to each other: one a suffix / prefix of the other, same base name in different directories
-    let related: [&[&str]; 12] = [
+    let related: [&[&str]; 15] = [
+        // the relative './' spelling with a hidden first component
+        &["./.config/demo/settings.toml", "/config/demo/settings.toml"],
+        &["./.hidden", "./visible", "./..d/x"],
+        &["./.a/.b/.c", "/a/b/c", "./a/.b/c"],
         // hidden (dot-prefixed) names next to their plain twins, at the top level and below
         &["/.config/settings", "/config/settings"],
         &["/.hidden", "/hidden", "/d/.hidden", "/d/hidden"],
@@ -138,6 +142,24 @@ pub fn specs(thorough: bool) -> Vec<BuildSpec> {
             v.push(mk(files, c, large));
         }
     }
+    // (2e) many files: counts that cross 8- and 16-bit boundaries, in one directory and in one directory each
+    let counts: Vec<usize> = if thorough { vec![255, 256, 257, 1000, 65_536, 65_537] } else { vec![255, 256, 257, 1000] };
+    for n in counts {
+        for one_dir in [true, false] {
+            for (c, large) in [(Comp::None, false), (Comp::Gzip(1), true)] {
+                if n > 2000 && (!one_dir || large) {
+                    continue; // the big counts once
+                }
+                let files: Vec<FileSpec> = (0..n)
+                    .map(|i| {
+                        let p = if one_dir { format!("/many/f{:06}", i) } else { format!("/many/d{:06}/f", i) };
+                        FileSpec::new(&p, Content::Bytes(format!("{}", i % 7).into_bytes()))
+                    })
+                    .collect();
+                v.push(mk(files, c, large));
+            }
+        }
+    }
     // (3) two and three files, every ordered size tuple over a small set
     let small = [0usize, 1, 3, 4, 5, 4096];
     for c in [Comp::None, Comp::Gzip(6), Comp::Zstd(3), Comp::Xz(1)] {
@@ -169,6 +191,8 @@ pub struct Yielded {
 
 pub fn iterate(p: &rpm::Package) -> Result<Vec<Yielded>, String> {
     let mut out = vec![];
+    // an iterator that yields more entries than the header lists files (plus a margin) is treated as not terminating
+    let cap = p.metadata.get_file_paths().map(|v| v.len()).unwrap_or(0) + 1000;
     for f in p.files().map_err(|e| format!("files(): {}", e))? {
         let f = f.map_err(|e| format!("entry {}: {}", out.len(), e))?;
         out.push(Yielded {
@@ -178,7 +202,7 @@ pub fn iterate(p: &rpm::Package) -> Result<Vec<Yielded>, String> {
             meta_size: f.metadata.size,
             meta_digest: f.metadata.digest.as_ref().map(|d| d.as_hex().to_string()),
         });
-        if out.len() > 10_000 {
+        if out.len() > cap {
             return Err("iterator does not terminate".into());
         }
     }
@@ -322,7 +346,7 @@ pub fn run(ctx: &Ctx) -> i32 {
         "built",
         "A",
         &format!(
-            "{} packages built by the library: 0–3 files; sizes {:?}{} (every residue mod 4) × compressible / incompressible content; name lengths 1–5, 255, 4000; every compression type {} × standard and stripped (large-file, forced by the verif hook) layout; all ordered size tuples over {{0,1,3,4,5,4096}} for 2 and 3 files given out of path order; file sets whose paths are suffixes / prefixes / case variants / dot-prefixed twins of one another; sources that are kernel-backed files (stat size 0) or symbolic links; zstd levels 20–22. Oracle: files() yields exactly the given files in path order, bytes identical, length = recorded size, SHA-256 = recorded digest. non-trivial = package with ≥ 1 file",
+            "{} packages built by the library: 0–3 files; sizes {:?}{} (every residue mod 4) × compressible / incompressible content; name lengths 1–5, 255, 4000; every compression type {} × standard and stripped (large-file, forced by the verif hook) layout; all ordered size tuples over {{0,1,3,4,5,4096}} for 2 and 3 files given out of path order; file sets whose paths are suffixes / prefixes / case variants / dot-prefixed twins of one another; sources that are kernel-backed files (stat size 0) or symbolic links; 255 / 256 / 257 / 1000 files (thorough: 65 535 / 65 536 / 65 537) in one directory and in one directory each; zstd levels 20–22. Oracle: files() yields exactly the given files in path order, bytes identical, length = recorded size, SHA-256 = recorded digest. non-trivial = package with ≥ 1 file",
             specs.len(), SIZES, if ctx.thorough() { ", 1 MiB, 5 MiB" } else { "" }, if ctx.thorough() { "and every documented level (gzip 0–9, xz 0–9, zstd 1–22)" } else { "at three levels each" }
         ),
         a,
